@@ -26,12 +26,26 @@ def run_property(prop, tier, prog=None, write=True):
     ctx = core.Ctx(prop, tier, prog or Program())
     mod.run(ctx)
     extra = None
-    if tier == "thorough" and hasattr(mod, "thorough"):
-        extra = mod.thorough(ctx)
+    fails = []
+    if tier == "thorough" and write:
+        from sa import selftest
+        extra, fails = selftest.thorough(ctx)
+        if hasattr(mod, "thorough"):
+            extra.update(mod.thorough(ctx) or {})
     if not write:
         return ctx
     seed = int(os.environ.get("VERIF_SEED", "0") or 0)
-    return core.finish(ctx, mod.CLAIM, mod.EXPLANATION, mod.ASSUMPTIONS, t0, extra=extra, seed=seed)
+    rc = core.finish(ctx, mod.CLAIM, mod.EXPLANATION, mod.ASSUMPTIONS, t0, extra=extra, seed=seed)
+    if extra and "self_validation" in extra:
+        sv = extra["self_validation"]
+        print("self-validation: %d variants, %d applied, breaking detected %d, missed %d, benign silent %d, false alarms %d, skipped %d" % (
+            sv["variants_total"], sv["variants_applied"], sv["breaking_detected"], len(sv["breaking_missed"]), sv["benign_silent"],
+            len(sv["benign_false_alarm"]), len(sv["skipped"])))
+    if rc == 0 and fails:
+        for f_ in fails:
+            print("ANALYSIS-ERROR property=%s self-validation: %s" % (prop, f_))
+        return 2
+    return rc
 
 
 def main(argv):
